@@ -270,7 +270,10 @@ func execC12(spec *RunSpec) *Result {
 				op := base
 				op.Ctx = CtxSpec{}
 				op.Reader.FailAfter = -1
-				op.Writer = WriterSpec{FailAt: k, Form: f}
+				op.Writer = WriterSpec{FailAt: k, Form: f, ErrKind: (k + f) % 8}
+				if spec.Grid != nil && len(spec.Grid.Offsets) > 0 && base.Writer.FailAt == k {
+					op.Writer.ErrKind = base.Writer.ErrKind // a replay names the error value it was recorded with
+				}
 				// "when it returns nil the writer has received the complete document": also the call after a failed
 				// one, on the same engine - whatever the failed write left in buffers and pools
 				o, next, rp, _ := c12RunTwo(spec, op, &refOp)
